@@ -3,7 +3,7 @@ From Coq Require Import List Arith NArith ZArith Lia Bool Permutation.
 From Coq Require Import ZifyBool ZifyNat ZifyN.
 From PB Require Import Base.PBytes Wire.WireModel Wire.VarintP.
 From PB Require Import Msg.MsgSchema Msg.MsgValue Msg.MsgUtf8 Msg.MsgEnc Msg.MsgDec Msg.MsgValid.
-From PB Require Import Msg.MsgWireP Msg.MsgScalarP Msg.MsgAssocP Msg.MsgSizeP.
+From PB Require Import Msg.MsgWireP Msg.MsgScalarP Msg.MsgAssocP Msg.MsgSizeP Msg.MsgExample.
 Ltac Zify.zify_post_hook ::= Z.div_mod_to_equations.
 Import ListNotations.
 Open Scope N_scope.
@@ -29,7 +29,7 @@ Section Loop.
       | Err _ => DErr DParse
       | Ok (num, typ, r) =>
         if msg_max_num <? num then DErr DParse
-        else if typ =? 4 then (if num =? grp then DOk (acc, r) else DErr DParse)
+        else if (typ =? 4) && negb slow then (if num =? grp then DOk (acc, r) else DErr DParse)
         else
           let tagraw := if slow then firstn (length bs - length r) bs else enc_tag num typ in
           match msg_step slow md (dm d) (msg_dsub2 d) tagraw num typ r acc with
@@ -51,11 +51,12 @@ Section Loop.
   Qed.
 
   Lemma msg_dm_end_grp d tid md grp g rest acc :
+    slow = false ->
     nth_error S tid = Some md -> 1 <= grp -> grp <= msg_max_num -> (0 < length g)%nat ->
     dm (Datatypes.S d) tid grp g (enc_tag grp 4 ++ rest) acc = DOk (acc, rest).
   Proof.
-    intros H Hlo Hhi Hg. destruct g as [|x g]; [cbn in Hg; lia|].
-    rewrite (msg_dm_unfold _ _ _ _ _ _ _ _ H).
+    intros Hslow H Hlo Hhi Hg. destruct g as [|x g]; [cbn in Hg; lia|].
+    rewrite (msg_dm_unfold _ _ _ _ _ _ _ _ H). rewrite Hslow.
     destruct (msgw_enc_tag_nonempty grp 4) as (b & r & E).
     assert (Hne : exists b0 r0, enc_tag grp 4 ++ rest = b0 :: r0)
       by (rewrite E; eexists; eexists; reflexivity).
@@ -63,7 +64,7 @@ Section Loop.
     rewrite msg_max_num_eq in Hhi.
     rewrite msgw_dec_tag_enc by lia.
     replace (msg_max_num <? grp) with false by (rewrite msg_max_num_eq; lia).
-    cbn [N.eqb Pos.eqb]. rewrite N.eqb_refl. reflexivity.
+    cbn [N.eqb Pos.eqb negb andb]. rewrite N.eqb_refl. reflexivity.
   Qed.
 
   (* one field whose step is known *)
@@ -86,7 +87,7 @@ Section Loop.
       rewrite msg_max_num_eq in Hhi.
       rewrite msgw_dec_tag_enc by lia.
       replace (msg_max_num <? num) with false by (rewrite msg_max_num_eq; lia).
-      replace (typ =? 4) with false by lia.
+      replace (typ =? 4) with false by lia. cbn [andb].
       cbv zeta. rewrite Hstep. reflexivity.
   Qed.
 End Loop.
@@ -208,6 +209,22 @@ Section StepLemmas.
     intros Hs Hf Hk Hnm Hsub. unfold msg_step. rewrite Hf. subst slow.
     destruct (f_card fd) eqn:Hc; try (exfalso; eapply Hnm; exact Hc);
       rewrite Hk; cbn [N.eqb Pos.eqb]; rewrite Hsub; reflexivity.
+  Qed.
+
+  Lemma msg_step_group_slow fd tid body tail tagraw acc m w :
+    slow = true ->
+    msg_find_field md (f_num fd) = Some fd -> f_kind fd = KGrp tid -> msg_not_map fd ->
+    1 <= f_num fd -> f_num fd <= msg_max_num ->
+    parse_val default_dep (f_num fd) 3 (body ++ enc_tag (f_num fd) 4) = Ok (w, []) ->
+    msg_whole dsub tid body (msg_old_sub fd (fst acc)) = DOk m ->
+    msg_step slow md dsub dsub2 tagraw (f_num fd) 3 (body ++ enc_tag (f_num fd) 4 ++ tail) acc =
+    DOk ((msg_store_sub md fd m (fst acc), snd acc), tail).
+  Proof.
+    intros Hs Hf Hk Hnm Hlo Hhi Hscan Hsub. unfold msg_step. rewrite Hf. subst slow.
+    rewrite msg_max_num_eq in Hhi.
+    destruct (msgw_consume_group_enc (f_num fd) body tail w Hlo Hhi Hscan) as [Hcg Hskip].
+    destruct (f_card fd) eqn:Hc; try (exfalso; eapply Hnm; exact Hc);
+      rewrite Hk; cbn [N.eqb Pos.eqb]; rewrite Hcg, Hsub, Nnat.Nat2N.id, Hskip; reflexivity.
   Qed.
 End StepLemmas.
 
@@ -382,7 +399,7 @@ Lemma msg_typed_unfold slow S dep tid fs unk :
   msg_typed slow S dep tid (VMsg fs unk) = true ->
   exists d md, dep = Datatypes.S d /\ nth_error S tid = Some md /\
     msg_keys_sorted 0 fs = true /\
-    forallb (fun p => msg_typed_chunk slow (msg_typed slow S d)
+    forallb (fun p => msg_typed_chunk slow (msg_enc_body S) (msg_typed slow S d)
                         (fun t x => match d with O => false | Datatypes.S d1 => msg_typed slow S d1 t x end)
                         (match d with O => false | _ => true end) md p) fs = true /\
     msg_oneofs_ok md fs = true /\
@@ -466,18 +483,14 @@ Section Main.
   Notation dm := (msg_decode_msg slow S).
   Notation eb := (msg_enc_body S).
 
-  Definition msg_no_unknown (v : value) : Prop :=
-    match v with VMsg _ (_ :: _) => False | _ => True end.
-
-  (* what follows the body: nothing (top level, length-delimited), or the end-group tag; in the
-     second case the value must not carry unknown bytes (restriction [grp_unknown]) *)
-  Definition msg_term_ok (v : value) (grp : N) (term rest : list byte) : Prop :=
+  (* what follows the body: nothing (top level, length-delimited), or the end-group tag *)
+  Definition msg_term_ok (grp : N) (term rest : list byte) : Prop :=
     (grp = 0 /\ term = [] /\ rest = []) \/
-    (1 <= grp /\ grp <= msg_max_num /\ term = enc_tag grp 4 ++ rest /\ msg_no_unknown v).
+    (slow = false /\ 1 <= grp /\ grp <= msg_max_num /\ term = enc_tag grp 4 ++ rest).
 
   Definition msg_dec_stmt (v : value) : Prop :=
     forall dep tid, msg_typed slow S dep tid v = true -> msg_sizes_ok S tid v = true ->
-    forall grp term rest g, msg_term_ok v grp term rest ->
+    forall grp term rest g, msg_term_ok grp term rest ->
       (length (eb tid v ++ term) < length g)%nat ->
       dm dep tid grp g (eb tid v ++ term) ([], []) = DOk (msg_macc_of v, rest).
 
@@ -507,7 +520,7 @@ Section Main.
     Lemma msg_elem_step fd v accf u tail g :
       msg_find_field md (f_num fd) = Some fd -> msg_not_map fd ->
       1 <= f_num fd -> f_num fd <= msg_max_num ->
-      msg_typed_elem slow (msg_typed slow S d) fd v = true ->
+      msg_typed_elem slow (msg_enc_body S) (msg_typed slow S d) fd v = true ->
       msg_szok_elem (msg_size_body S) (msg_sizes_ok S) (f_kind fd) v = true ->
       msg_dec_stmt v ->
       (card_repeated (f_card fd) = true \/ msg_fget accf (f_num fd) = []) ->
@@ -539,22 +552,32 @@ Section Main.
           pose proof (Hstmt d t Hty Hsok 0 [] [] (x00 :: eb t (VMsg fs' u'))) as H.
           rewrite app_nil_r in H. rewrite H; [reflexivity|left; auto|cbn [length]; lia].
       - (* group *)
-        apply andb_true_iff in Hty. destruct Hty as [Hty Hunk].
-        apply andb_true_iff in Hty. destruct Hty as [Hslow Hty].
-        apply negb_true_iff in Hslow.
+        apply andb_true_iff in Hty. destruct Hty as [Hty Hmode].
         replace ((enc_tag (f_num fd) 3 ++ eb t (VMsg fs' u') ++ enc_tag (f_num fd) 4) ++ tail)
           with (enc_tag (f_num fd) 3 ++ (eb t (VMsg fs' u') ++ enc_tag (f_num fd) 4) ++ tail) in *
           by (rewrite <- !app_assoc; reflexivity).
         apply (msg_dm_field slow S d tid md grp g (f_num fd) 3 (eb t (VMsg fs' u') ++ enc_tag (f_num fd) 4) tail (accf, u));
           try assumption; [lia|lia|].
         intros tagraw.
-        rewrite (msg_step_group slow md _ _ fd t (eb t (VMsg fs' u') ++ enc_tag (f_num fd) 4) tail tagraw (accf, u) (fs', u'));
-          try assumption; [reflexivity|].
-        cbn [fst]. rewrite (msg_old_sub_fresh fd accf Hold).
-        rewrite <- !app_assoc.
-        apply (Hstmt d t Hty Hsz (f_num fd) (enc_tag (f_num fd) 4 ++ tail) tail).
-        + right. repeat split; try assumption. cbn [msg_no_unknown]. destruct u'; [exact I|discriminate].
-        + cbn [length]. lia.
+        assert (Hcase : slow = true \/ slow = false) by (destruct slow; auto).
+        destruct Hcase as [Hslow|Hslow].
+        + (* reflection path: ConsumeGroup, then the content as a message *)
+          rewrite Hslow in Hmode. cbn [negb orb] in Hmode. unfold msg_group_scans in Hmode.
+          destruct (parse_val default_dep (f_num fd) 3 (eb t (VMsg fs' u') ++ enc_tag (f_num fd) 4))
+            as [[w [|? ?]]|e] eqn:Hscan; try discriminate.
+          rewrite <- app_assoc.
+          rewrite (msg_step_group_slow slow md _ _ fd t (eb t (VMsg fs' u')) tail tagraw (accf, u) (fs', u') w);
+            try assumption; try reflexivity.
+          cbn [fst]. rewrite (msg_old_sub_fresh fd accf Hold). unfold msg_whole.
+          pose proof (Hstmt d t Hty Hsz 0 [] [] (x00 :: eb t (VMsg fs' u'))) as H.
+          rewrite app_nil_r in H. rewrite H; [reflexivity|left; auto|cbn [length]; lia].
+        + rewrite (msg_step_group slow md _ _ fd t (eb t (VMsg fs' u') ++ enc_tag (f_num fd) 4) tail tagraw (accf, u) (fs', u'));
+            try assumption; try reflexivity.
+          cbn [fst]. rewrite (msg_old_sub_fresh fd accf Hold).
+          rewrite <- !app_assoc.
+          apply (Hstmt d t Hty Hsz (f_num fd) (enc_tag (f_num fd) 4 ++ tail) tail).
+          * right. auto.
+          * cbn [length]. lia.
     Qed.
   
 
@@ -573,7 +596,7 @@ Section Main.
     Qed.
 
     Definition msg_elem_good (fd : fdesc) (v : value) : Prop :=
-      msg_typed_elem slow (msg_typed slow S d) fd v = true /\
+      msg_typed_elem slow (msg_enc_body S) (msg_typed slow S d) fd v = true /\
       msg_szok_elem (msg_size_body S) (msg_sizes_ok S) (f_kind fd) v = true /\
       msg_dec_stmt v.
 
@@ -709,7 +732,7 @@ Section Main.
     Notation has2 := (match d with O => false | _ => true end).
 
     Lemma msg_elem_good_of fd vs :
-      forallb (msg_typed_elem slow (msg_typed slow S d) fd) vs = true ->
+      forallb (msg_typed_elem slow (msg_enc_body S) (msg_typed slow S d) fd) vs = true ->
       forallb (msg_szok_elem (msg_size_body S) (msg_sizes_ok S) (f_kind fd)) vs = true ->
       Forall msg_dec_stmt_deep vs ->
       Forall (msg_elem_good fd) vs.
@@ -720,7 +743,7 @@ Section Main.
 
     Lemma msg_field_step fd vs accf u tail g :
       msg_find_field md (f_num fd) = Some fd ->
-      msg_typed_field slow (msg_typed slow S d) tv2 has2 fd vs = true ->
+      msg_typed_field slow (msg_enc_body S) (msg_typed slow S d) tv2 has2 fd vs = true ->
       msg_szok_field (msg_size_body S) (msg_sizes_ok S) fd vs = true ->
       Forall msg_dec_stmt_deep vs ->
       ~ In (f_num fd) (msg_keys accf) ->
@@ -739,7 +762,7 @@ Section Main.
       assert (Hfget : msg_fget accf (f_num fd) = []) by (apply msg_fget_notin; exact Hnot).
       (* singular fields *)
       assert (Hsingle : forall v, vs = [v] -> msg_not_map fd -> card_repeated (f_card fd) = false ->
-                msg_typed_elem slow (msg_typed slow S d) fd v = true ->
+                msg_typed_elem slow (msg_enc_body S) (msg_typed slow S d) fd v = true ->
                 (match f_card fd, v with CImp, VS s => msg_scalar_is_zero s = false | _, _ => True end) ->
                 forallb (msg_szok_elem (msg_size_body S) (msg_sizes_ok S) (f_kind fd)) vs = true ->
                 (length (flat_map (fun e => msg_enc_elem eb (f_num fd) (f_kind fd) e) vs ++ tail) < length g)%nat ->
@@ -755,7 +778,7 @@ Section Main.
         rewrite (msg_set_field_fresh md fd v accf Hz Hfree). reflexivity. }
       (* repeated, expanded *)
       assert (Hexp : msg_not_map fd -> card_repeated (f_card fd) = true -> vs <> [] ->
-                forallb (msg_typed_elem slow (msg_typed slow S d) fd) vs = true ->
+                forallb (msg_typed_elem slow (msg_enc_body S) (msg_typed slow S d) fd) vs = true ->
                 forallb (msg_szok_elem (msg_size_body S) (msg_sizes_ok S) (f_kind fd)) vs = true ->
                 (length (flat_map (fun e => msg_enc_elem eb (f_num fd) (f_kind fd) e) vs ++ tail) < length g)%nat ->
                 exists g2, (length tail < length g2)%nat /\
@@ -788,7 +811,7 @@ Section Main.
           destruct vs; try discriminate; assumption.
       - (* packed *)
         assert (Hne : vs <> []) by (destruct vs; [discriminate|discriminate]).
-        assert (Htyv : forallb (msg_typed_elem slow (msg_typed slow S d) fd) vs = true)
+        assert (Htyv : forallb (msg_typed_elem slow (msg_enc_body S) (msg_typed slow S d) fd) vs = true)
           by (destruct vs; [discriminate|exact Hty]).
         destruct (f_kind fd) as [sk|t|t] eqn:Hk.
         + destruct vs as [|v0 vs']; [congruence|].
@@ -835,7 +858,7 @@ Section Main.
 
     (* ---------- all fields, in any order ---------- *)
     Definition msg_chunk_good (p : N * list value) : Prop :=
-      msg_typed_chunk slow (msg_typed slow S d) tv2 has2 md p = true /\
+      msg_typed_chunk slow (msg_enc_body S) (msg_typed slow S d) tv2 has2 md p = true /\
       msg_szok_chunk (msg_size_body S) (msg_sizes_ok S) md p = true /\
       Forall msg_dec_stmt_deep (snd p).
 
@@ -913,34 +936,50 @@ Section Main.
         destruct d; [discriminate|]. cbn [msg_dsub2]. rewrite H2. reflexivity.
     Qed.
 
-    Lemma msg_unknown_loop : forall gf u g accf pre,
-      msg_unknown_ok slow md has2 gf u = true -> (length u < length g)%nat ->
-      dm (Datatypes.S d) tid 0 g u (accf, pre) = DOk ((accf, pre ++ u), []).
+    Lemma msg_firstn_app_le (n : nat) (a b : list byte) : (n <= length a)%nat -> firstn n (a ++ b) = firstn n a.
+    Proof. intros H. rewrite firstn_app. replace (n - length a)%nat with 0%nat by lia. cbn [firstn]. apply app_nil_r. Qed.
+
+    Lemma msg_unknown_loop : forall gf u g accf pre tail,
+      msg_unknown_ok slow md has2 gf u = true -> (length (u ++ tail) < length g)%nat ->
+      exists g2, (length tail < length g2)%nat /\
+        dm (Datatypes.S d) tid grp g (u ++ tail) (accf, pre) = dm (Datatypes.S d) tid grp g2 tail (accf, pre ++ u).
     Proof.
-      induction gf as [|x0 gf IH]; intros u g accf pre Hok Hg; [discriminate|].
-      destruct g as [|x g]; [cbn in Hg; lia|].
+      induction gf as [|x0 gf IH]; intros u g accf pre tail Hok Hg; [discriminate|].
       destruct u as [|b0 u0].
-      - rewrite (msg_dm_unfold slow S d tid 0 md x g [] (accf, pre) Hmd). rewrite app_nil_r. reflexivity.
-      - cbn [msg_unknown_ok] in Hok.
+      - exists g. cbn [app] in *. rewrite app_nil_r. split; [exact Hg|reflexivity].
+      - destruct g as [|x g]; [cbn in Hg; lia|].
+        cbn [msg_unknown_ok] in Hok.
         destruct (dec_tag (b0 :: u0)) as [[[num typ] r]|e] eqn:Hdt; [|discriminate].
         destruct (parse_val default_dep num typ r) as [[w r']|e] eqn:Hpv; [|discriminate].
         repeat (apply andb_true_iff in Hok; destruct Hok as [Hok ?]).
         rename H into Hrec. rename H0 into Hlt. rename H1 into Heq2. rename H2 into Heq1. rename H3 into Hrej.
         rename H4 into Ht4.
         apply msg_bytes_eqb_eq in Heq2.
-        rewrite (msg_dm_unfold slow S d tid 0 md x g (b0 :: u0) (accf, pre) Hmd).
-        rewrite Hdt.
+        destruct (msgw_dec_tag_ext _ tail _ _ _ Hdt) as [Hdt' Hlr].
+        destruct (msgw_parse_val_ext _ _ _ _ tail _ _ Hpv) as [Hpv' Hlr'].
+        rewrite (msg_dm_unfold slow S d tid grp md x g ((b0 :: u0) ++ tail) (accf, pre) Hmd).
+        cbn [app]. change (b0 :: u0 ++ tail) with ((b0 :: u0) ++ tail).
+        rewrite Hdt'.
         replace (msg_max_num <? num) with false by lia.
-        apply negb_true_iff in Ht4. rewrite Ht4. cbv zeta.
-        rewrite (msg_rejects_step _ num typ r (accf, pre) Hrej).
-        unfold msg_unknown. rewrite Hpv. cbn [fst snd].
-        assert (Hlen : (length r' <= length r)%nat).
-        { pose proof (f_equal (@length byte) Heq2) as Hl. rewrite app_length in Hl. lia. }
-        rewrite IH; [|exact Hrec|cbn [length] in *; lia].
-        f_equal. f_equal. f_equal. rewrite <- !app_assoc. f_equal.
-        destruct slow.
-        + apply msg_bytes_eqb_eq in Heq1. rewrite <- Heq1 at 3. f_equal. exact Heq2.
-        + apply msg_bytes_eqb_eq in Heq1. rewrite <- Heq1. f_equal. exact Heq2.
+        apply negb_true_iff in Ht4. rewrite Ht4. cbn [andb]. cbv zeta.
+        rewrite (msg_rejects_step _ num typ (r ++ tail) (accf, pre) Hrej).
+        unfold msg_unknown. rewrite Hpv'. cbn [fst snd].
+        destruct (IH r' g accf (pre ++ (if slow then firstn (length ((b0 :: u0) ++ tail) - length (r ++ tail)) ((b0 :: u0) ++ tail)
+                                        else enc_tag num typ)
+                                 ++ firstn (length (r ++ tail) - length (r' ++ tail)) (r ++ tail)) tail Hrec)
+          as (g2 & Hg2 & E).
+        + rewrite app_length in *. cbn [length] in *. lia.
+        + exists g2. split; [exact Hg2|]. rewrite E. f_equal. f_equal.
+          rewrite <- !app_assoc. f_equal.
+          rewrite !app_length.
+          replace (length r + length tail - (length r' + length tail))%nat with (length r - length r')%nat by lia.
+          rewrite (msg_firstn_app_le (length r - length r') r tail) by lia.
+          destruct slow.
+          * replace (length (b0 :: u0) + length tail - (length r + length tail))%nat
+              with (length (b0 :: u0) - length r)%nat by lia.
+            rewrite (msg_firstn_app_le (length (b0 :: u0) - length r) (b0 :: u0) tail) by lia.
+            apply msg_bytes_eqb_eq in Heq1. rewrite Heq2. exact Heq1.
+          * apply msg_bytes_eqb_eq in Heq1. rewrite Heq2. exact Heq1.
     Qed.
   End InMessage.
 
@@ -977,11 +1016,11 @@ Section Main.
         - rewrite app_nil_r in Hp.
           eapply msg_sorted_perm_eq; [exact Hs|exact Hsorted|]. rewrite Hp. exact Hperm. }
       rewrite Hins. cbn [msg_macc_of].
-      destruct Hterm as [(-> & -> & ->)|(Hlo & Hhi & -> & Hnu)].
-      + rewrite app_nil_r in *.
-        rewrite (msg_unknown_loop d tid md Hmd (x00 :: unk) unk g2 fs [] Hunk Hg2). reflexivity.
-      + cbn [msg_no_unknown] in Hnu. destruct unk; [|contradiction]. cbn [app] in *.
-        apply (msg_dm_end_grp slow S d tid md grp g2 rest (fs, []) Hmd Hlo Hhi). lia.
+      destruct (msg_unknown_loop d tid md grp Hmd (x00 :: unk) unk g2 fs [] term Hunk Hg2) as (g3 & Hg3 & E3).
+      etransitivity; [exact E3|]. clear E3. cbn [app].
+      destruct Hterm as [(-> & -> & ->)|(Hsl & Hlo & Hhi & ->)].
+      + apply (msg_dm_end0 slow S d tid md g3 (fs, unk) Hmd). lia.
+      + apply (msg_dm_end_grp slow S d tid md grp g3 rest (fs, unk) Hsl Hmd Hlo Hhi). lia.
     - split; [intros dep tid Hty; discriminate|]. exact (proj1 IH).
   Qed.
 End Main.
@@ -1006,4 +1045,17 @@ Proof.
   intros H1 H2 E. pose proof (msg_roundtrip slow S limit tid v1 H1) as R1.
   pose proof (msg_roundtrip slow S limit tid v2 H2) as R2. rewrite E in R1. rewrite R1 in R2.
   now inversion R2.
+Qed.
+
+(* FB3: the reflection path rejects what the table-driven path round-trips *)
+Theorem msg_fb3_witness :
+  exists (S : schema) (v : value),
+    msg_valid false S 2 0 v = true /\
+    msg_decode false S 2 0 (msg_encode S 0 v) = DOk v /\
+    msg_decode true S 2 0 (msg_encode S 0 v) = DErr DParse.
+Proof.
+  exists MsgExample.fb3_schema, (MsgExample.fb3_msg (N.to_nat 10001)).
+  assert (Hv : msg_valid false MsgExample.fb3_schema 2 0 (MsgExample.fb3_msg (N.to_nat 10001)) = true)
+    by (vm_compute; reflexivity).
+  split; [exact Hv|]. split; [apply msg_roundtrip; exact Hv|]. vm_compute. reflexivity.
 Qed.
